@@ -263,7 +263,7 @@ impl Check for C12 {
         "C12"
     }
     fn rule(&self) -> String {
-        "2-4 interpreter instances, each with its own progGen program (host holes, modules, clock/random/console reads, identity-keyed Map/Set, Symbols, objects past the inline-property limit, sort stability), host tape, simulated clock and random seed; modes: (a) seeded interleaving of their actions in one thread incl. late creation, early drop and forced collects, (b) prior lifetimes (A runs and is dropped, then B), (c) one OS thread per instance, released one action at a time by the scheduler; plus (d) the same seeds in fresh processes under ASLR with a shifted heap. Oracle: each instance's full trace (result, console, traffic, step count, exports) equals its solo trace; trace hashes agree across processes. non-trivial = at least two instances were really interleaved (the schedule switched instance at least twice) or a lifetime preceded; distinct = distinct (solo trace hashes, schedule switches)".into()
+        "2-4 interpreter instances, each with its own progGen program (host holes, modules, clock/random/console reads, identity-keyed Map/Set, Symbols, objects past the inline-property limit, sort stability), host tape, simulated clock and random seed; modes: (a) seeded interleaving of their actions in one thread incl. late creation, early drop and forced collects, (b) prior lifetimes (A runs and is dropped, then B), (c) one OS thread per instance, released one action at a time by the scheduler; plus (d) the same seeds in fresh processes under ASLR with a shifted heap. Oracle: each instance's full trace (result, console, traffic, step count, exports) equals its solo trace; trace hashes agree across processes. non-trivial = at least two instances were really interleaved (the schedule switched instance at least twice) or a lifetime preceded; distinct = distinct (solo trace hashes, schedule switches). Also: instances running author-written corpus programs; per-instance simulated RegExp engines (default / case-folding / literal) with the same patterns in every instance; the internal source module lib:util with the same text in every instance; classes with private methods whose keys are enumerated".into()
     }
     fn components(&self) -> Value {
         json!({"real": ["Interpreter (several instances)", "BytecodeVM", "gc.rs (one heap per instance)", "string interning", "promise/symbol/order id counters"],
